@@ -278,4 +278,216 @@ theorem graph_to_molfile_ok (env : DepEnv) (fuel : Nat) (g : Graph)
     have : l.length / 71 ≤ maxLen (logicalLines env g) / 71 := Nat.div_le_div_right this
     omega)
 
+/-! ## 3. C09: line length, and the text splits back into the physical lines -/
+
+theorem length_progName (env : DepEnv) : (progName env).length = 8 := by
+  simp only [progName, padRight, List.length_append, List.length_replicate, List.length_take, List.length_cons,
+    List.length_nil]
+  omega
+
+theorem header_length_le (env : DepEnv) (hstamp : env.nowStamp.length ≤ 67) : ∀ p ∈ header env, p.length ≤ 79 := by
+  intro p hp
+  simp only [header, List.mem_cons, List.not_mem_nil, or_false] at hp
+  rcases hp with rfl | rfl | rfl | rfl
+  · simp
+  · simp only [List.length_append, length_progName]; simp; omega
+  · simp
+  · simp
+
+/-- **C09, line length.** No physical line of the file is longer than 79 characters (80 with the newline),
+whatever the lengths of the logical lines. -/
+theorem C09_line_length' (env : DepEnv) (g : Graph) (hstamp : env.nowStamp.length ≤ 67) :
+    ∀ p ∈ fileLines env g, p.length ≤ 79 := by
+  intro p hp
+  simp only [fileLines, List.mem_append, List.mem_flatMap, List.mem_cons, List.not_mem_nil, or_false] at hp
+  rcases hp with (hp | ⟨l, _, hp⟩) | rfl
+  · exact header_length_le env hstamp p hp
+  · exact wrap_length_le l p hp
+  · simp
+
+theorem C09_line_length (env : DepEnv) (g : Graph) (hstamp : env.nowStamp.length = 10) :
+    ∀ p ∈ fileLines env g, p.length ≤ 79 :=
+  C09_line_length' env g (by omega)
+
+/-! ### `split` on a one-character separator undoes `join` -/
+
+/-- `s.split(c)` by structural recursion -/
+def splitC (c : Char) : Str → Str → List Str
+  | [], cur => [cur.reverse]
+  | d :: ds, cur => if d = c then cur.reverse :: splitC c ds [] else splitC c ds (d :: cur)
+
+theorem splitOnAux_eq_splitC (c : Char) (s : Str) : ∀ (fuel : Nat) (cur : Str), s.length ≤ fuel →
+    splitOnAux [c] fuel s cur = splitC c s cur := by
+  induction s with
+  | nil => intro fuel cur _; cases fuel <;> simp [splitOnAux, splitC]
+  | cons d ds ih =>
+    intro fuel cur hf
+    cases fuel with
+    | zero => simp at hf
+    | succ fuel =>
+      simp only [List.length_cons, Nat.add_le_add_iff_right] at hf
+      by_cases hd : d = c
+      · subst hd
+        simp [splitOnAux, splitC, ih fuel [] hf]
+      · have hd' : ¬ c = d := fun e => hd e.symm
+        simp [splitOnAux, splitC, hd, hd', ih fuel (d :: cur) hf]
+
+theorem split_eq_splitC (c : Char) (s : Str) : split s [c] = splitC c s [] :=
+  splitOnAux_eq_splitC c s _ _ (by omega)
+
+theorem splitC_no (c : Char) (t : Str) (h : c ∉ t) : ∀ cur, splitC c t cur = [cur.reverse ++ t] := by
+  induction t with
+  | nil => intro cur; simp [splitC]
+  | cons d ds ih =>
+    intro cur
+    have hd : d ≠ c := fun e => h (by simp [e])
+    simp [splitC, hd, ih (fun hc => h (by simp [hc]))]
+
+theorem splitC_sep (c : Char) (t rest : Str) (h : c ∉ t) : ∀ cur,
+    splitC c (t ++ c :: rest) cur = (cur.reverse ++ t) :: splitC c rest [] := by
+  induction t with
+  | nil => intro cur; simp [splitC]
+  | cons d ds ih =>
+    intro cur
+    have hd : d ≠ c := fun e => h (by simp [e])
+    simp [splitC, hd, ih (fun hc => h (by simp [hc]))]
+
+theorem join_cons_cons (sep a b : Str) (r : List Str) : join sep (a :: b :: r) = a ++ sep ++ join sep (b :: r) := by
+  simp [join, List.intercalate, List.intersperse]
+
+theorem join_singleton (sep a : Str) : join sep [a] = a := by
+  simp [join, List.intercalate, List.intersperse]
+
+/-- `c.join(ts).split(c) == ts` for a non-empty list of strings without `c` -/
+theorem splitC_join (c : Char) : ∀ (ts : List Str), ts ≠ [] → (∀ t ∈ ts, c ∉ t) → splitC c (join [c] ts) [] = ts
+  | [], h, _ => absurd rfl h
+  | [a], _, h => by rw [join_singleton, splitC_no c a (h a (by simp))]; simp
+  | a :: b :: r, _, h => by
+    rw [join_cons_cons, List.append_assoc, List.singleton_append, splitC_sep c a _ (h a (by simp)),
+      splitC_join c (b :: r) (by simp) (fun t ht => h t (by simp [ht]))]
+    simp
+
+theorem split_join (c : Char) (ts : List Str) (hne : ts ≠ []) (h : ∀ t ∈ ts, c ∉ t) : split (join [c] ts) [c] = ts := by
+  rw [split_eq_splitC, splitC_join c ts hne h]
+
+/-! ### which characters occur in the file -/
+
+theorem pyStrInt_eq (n : Int) :
+    pyStrInt n = if 0 ≤ n then Nat.toDigits 10 n.toNat else '-' :: Nat.toDigits 10 (-n).toNat := by
+  unfold pyStrInt
+  rw [Int.toString_eq_repr, Int.repr_eq_if]
+  split <;> simp
+
+theorem mem_pyStrInt (n : Int) : ∀ c ∈ pyStrInt n, c.isDigit = true ∨ c = '-' := by
+  intro c hc
+  rw [pyStrInt_eq] at hc
+  split at hc
+  · exact Or.inl (Nat.isDigit_of_mem_toDigits (by decide) (by decide) hc)
+  · rcases List.mem_cons.mp hc with rfl | hc
+    · exact Or.inr rfl
+    · exact Or.inl (Nat.isDigit_of_mem_toDigits (by decide) (by decide) hc)
+
+theorem nl_not_mem_pyStrInt (n : Int) : '\n' ∉ pyStrInt n := by
+  intro h
+  rcases mem_pyStrInt n _ h with h | h
+  · exact absurd h (by decide)
+  · exact absurd h (by decide)
+
+theorem mem_wrap (l : Str) : ∀ p ∈ wrap l, ∀ c ∈ p, c ∈ v30 ∨ c ∈ l ∨ c = '-' := by
+  induction l using wrap.induct with
+  | case1 l h =>
+    intro p hp c hc
+    rw [wrap_of_le h] at hp
+    simp only [List.mem_singleton] at hp; subst hp
+    rcases List.mem_append.mp hc with hc | hc
+    · exact Or.inl hc
+    · exact Or.inr (Or.inl hc)
+  | case2 l h ih =>
+    intro p hp c hc
+    rw [wrap_of_gt h] at hp
+    rcases List.mem_cons.mp hp with rfl | hp
+    · simp only [List.mem_append, List.mem_singleton] at hc
+      rcases hc with (hc | hc) | hc
+      · exact Or.inl hc
+      · exact Or.inr (Or.inl (List.mem_of_mem_take hc))
+      · exact Or.inr (Or.inr hc)
+    · rcases ih p hp c hc with h1 | h1 | h1
+      · exact Or.inl h1
+      · exact Or.inr (Or.inl (List.mem_of_mem_drop h1))
+      · exact Or.inr (Or.inr h1)
+
+theorem mem_replaceAllAux (old new : Str) (c : Char) : ∀ (fuel : Nat) (s : Str),
+    c ∈ replaceAllAux old new fuel s → c ∈ s ∨ c ∈ new := by
+  intro fuel
+  induction fuel with
+  | zero => intro s h; exact Or.inl (by simpa [replaceAllAux] using h)
+  | succ fuel ih =>
+    intro s h
+    cases s with
+    | nil => simp [replaceAllAux] at h
+    | cons d ds =>
+      simp only [replaceAllAux] at h
+      split at h
+      · rcases List.mem_append.mp h with h | h
+        · exact Or.inr h
+        · rcases ih _ h with h | h
+          · exact Or.inl (List.mem_of_mem_drop h)
+          · exact Or.inr h
+      · rcases List.mem_cons.mp h with rfl | h
+        · exact Or.inl (by simp)
+        · rcases ih _ h with h | h
+          · exact Or.inl (by simp [h])
+          · exact Or.inr h
+
+/-- the header contains no newline if the version string and the time stamp contain none -/
+theorem nl_not_mem_header (env : DepEnv) (hv : '\n' ∉ env.version) (hs : '\n' ∉ env.nowStamp) :
+    ∀ p ∈ header env, '\n' ∉ p := by
+  have hprog : '\n' ∉ progName env := by
+    intro h
+    simp only [progName, padRight, List.mem_append, List.mem_replicate] at h
+    rcases h with h | h | h
+    · revert h; decide
+    · rcases mem_replaceAllAux _ _ _ _ _ (List.mem_of_mem_take h) with h | h
+      · exact hv h
+      · simp at h
+    · exact absurd h.2 (by decide)
+  intro p hp
+  simp only [header, List.mem_cons, List.not_mem_nil, or_false] at hp
+  rcases hp with rfl | rfl | rfl | rfl
+  · simp
+  · intro h
+    simp only [List.mem_append] at h
+    rcases h with ((h | h) | h) | h
+    · revert h; decide
+    · exact hprog h
+    · exact hs h
+    · revert h; decide
+  · simp
+  · decide
+
+/-- the values the writer prints contain no newline: the formatted coordinates, the element symbols and
+the bond types (`str()` of an integer never does) -/
+structure NoNewline (env : DepEnv) (g : Graph) : Prop where
+  fmt6 : ∀ v, '\n' ∉ env.fmt6 v
+  sym : ∀ p ∈ g.nodesData, '\n' ∉ symbolOf p.2
+  bond : ∀ e ∈ g.edgesData, '\n' ∉ bondTypeOf e.2.2
+
+theorem nl_not_mem_field (pre : Str) (hpre : '\n' ∉ pre) (o : Option Int) (P : Int → Prop) [DecidablePred P] :
+    '\n' ∉ (match o with | some c => if P c then pre ++ pyStrInt c else [] | none => []) := by
+  cases o with
+  | none => simp
+  | some c =>
+    by_cases h : P c
+    · simp only [h, if_true, List.mem_append, not_or]; exact ⟨hpre, nl_not_mem_pyStrInt c⟩
+    · simp [h]
+
+theorem nl_not_mem_atomLogical (env : DepEnv) (p : Int × Attrs) (hfmt : ∀ v, '\n' ∉ env.fmt6 v)
+    (hsym : '\n' ∉ symbolOf p.2) : '\n' ∉ atomLogical env p := by
+  have h1 := nl_not_mem_field py!" CHG=" (by decide) (intAttr p.2 "chg") (fun c => c ≠ 0 ∧ -15 ≤ c ∧ c ≤ 15)
+  have h2 := nl_not_mem_field py!" RAD=" (by decide) (intAttr p.2 "rad") (fun c => 1 ≤ c ∧ c ≤ 3)
+  have h3 := nl_not_mem_field py!" MASS=" (by decide) (intAttr p.2 "mass") (fun c => 0 < c)
+  simp only [atomLogical, List.mem_append, not_or]
+  refine ⟨⟨⟨⟨⟨⟨⟨⟨⟨⟨⟨nl_not_mem_pyStrInt _, by decide⟩, hsym⟩, by decide⟩, hfmt _⟩, by decide⟩, hfmt _⟩, by decide⟩,
+    hfmt _⟩, by decide⟩, h1⟩, h2⟩, h3⟩
+
 end Contracts.Writer
